@@ -95,6 +95,8 @@ def check(ctx):
         if comparison_var and comparison_var in [n.id for n in ast.walk(w) if isinstance(n, ast.Name)]:
             row = w
     ctx.require(row is not None, "%s: no write() of the request row using '%s'" % (opb.fq, comparison_var))
+    from ..astutil import expand_ast
+    row = expand_ast(opb.node, row, skip=(comparison_var,) if comparison_var else ())
     coef_ok, iter_ok = False, False
     for n in ast.walk(row):
         if isinstance(n, ast.Lambda) or isinstance(n, ast.GeneratorExp) or isinstance(n, ast.ListComp):
@@ -138,6 +140,8 @@ def _is_neg_test(t: ast.AST) -> bool:
 
 
 def _clause_row(ctx, f, expr, relation, threshold_kind):
+    from ..astutil import expand_ast
+    expr = expand_ast(f.node, expr, skip=("false_count", "count_false_var"))
     env = env_for(f.node)
     # nested helper definitions (count_false_var) are expanded by hand below
     helper_defs = {n.name: n for n in f.node.body if isinstance(n, ast.FunctionDef)}
@@ -150,8 +154,14 @@ def _clause_row(ctx, f, expr, relation, threshold_kind):
     c = conds[0]
     # the literals that are rendered and the literals that are counted for the threshold are the same collection
     maps = [n for n in ast.walk(expr) if isinstance(n, ast.Call) and isinstance(n.func, ast.Name) and n.func.id == "map" and len(n.args) == 2 and any(x is c for x in ast.walk(n.args[0]))]
-    ctx.require(len(maps) == 1, "%s: the map over the literals was not found" % f.fq)
-    rendered = ast.unparse(maps[0].args[1])
+    comps = [n for n in ast.walk(expr) if isinstance(n, (ast.GeneratorExp, ast.ListComp)) and len(n.generators) == 1 and any(x is c for x in ast.walk(n.elt))]
+    cands = sorted(maps + comps, key=lambda n: len(list(ast.walk(n))))[:1]      # the innermost iteration that contains the term
+    maps = [n for n in cands if isinstance(n, ast.Call)]
+    comps = [n for n in cands if not isinstance(n, ast.Call)]
+    ctx.require(len(maps) + len(comps) == 1, "%s: the iteration over the literals was not found" % f.fq)
+    rendered = ast.unparse(maps[0].args[1]) if maps else ast.unparse(comps[0].generators[0].iter)
+    if not maps:
+        maps = comps
     counted = None
     for n in ast.walk(expr):
         if isinstance(n, ast.Call) and isinstance(n.func, ast.Name) and n.func.id == "count_false_var" and n.args:
